@@ -19,10 +19,11 @@ struct vs_map { size_t n; struct vs_pair_astr *e; };
 struct vs_kv { const char *key_src; size_t key_size; const void *val; };
 struct vs_inner { size_t inserts; const char *last_key_src; size_t last_key_size; const void *last_val; };
 struct vs_outer { bool has_name; struct vs_inner of_name; size_t inserts; const char *last_key_src; size_t last_key_size; struct vs_inner last_val; };
+static inline struct vs_astr vs_astr_copy(const struct vs_astr *s) { return *s; }
 const char *g_find_src; size_t g_find_size, g_find_calls;
-static inline struct vs_inner *vs_jar_find(struct vs_outer *m, const struct vs_astr *name)
+static inline struct vs_inner *vs_jar_find(struct vs_outer *m, struct vs_astr name)
 {
-    g_find_calls++; g_find_src = name->src; g_find_size = name->size;
+    g_find_calls++; g_find_src = name.src; g_find_size = name.size;
     return m->has_name ? &m->of_name : (struct vs_inner *)0;
 }
 static inline void vs_inner_insert(struct vs_inner *m, struct vs_kv kv) { m->inserts++; m->last_key_src = kv.key_src; m->last_key_size = kv.key_size; m->last_val = kv.val; }
@@ -81,7 +82,7 @@ STUBS = {
     'operator*|std::optional<Pistache::Http::FullDate>': {'expr': '(($0).v)'},
     'Pistache::Http::FullDate::write': 'vs_date_write',
     # CookieJar::Storage = unordered_map<name, unordered_map<value, Cookie>>: what is looked up and what is inserted under which key
-    'ctor:std::string/copy': {'expr': '($0)'},
+    'ctor:std::string/copy': 'vs_astr_copy',
     'std::unordered_map<std::string, std::unordered_map<std::string, Pistache::Http::Cookie>>::find': 'vs_jar_find', 'std::unordered_map<std::string, std::unordered_map<std::string, Pistache::Http::Cookie>>::end': {'expr': '((struct vs_inner *)0)'},
     'operator==|std::__detail::_Node_iterator_base<std::pair<std::string, std::unordered_map<std::string, Pistache::Http::Cookie>>, true>,std::__detail::_Node_iterator_base<std::pair<std::string, std::unordered_map<std::string, Pistache::Http::Cookie>>, true>': {'expr': '(($0) == ($1))'},
     'ctor:std::unordered_map<std::string, Pistache::Http::Cookie>/0': {'expr': '((struct vs_inner){0})'},
@@ -103,7 +104,18 @@ EXCEPTIONS = {}
 DEFAULT_RULE = False
 OPAQUE_UNKNOWN = True
 FUNCTIONS = [
-    {'q': 'Pistache::Http::CookieJar::add'},
+    {'q': 'Pistache::Http::CookieJar::add', 'contract': """
+        requires FRESH(this, sizeof(*this)) && FRESH(cookie, sizeof(*cookie)) && vs_exc == 0 && g_find_calls == 0
+        requires this->cookies.inserts == 0 && this->cookies.of_name.inserts == 0
+        assigns this->cookies, g_find_calls, g_find_src, g_find_size
+        # C17 (a jar contains exactly the pairs): the jar is a map name -> (value -> cookie).  The name is looked up once; a name seen before
+        # gets the cookie inserted into ITS map under the cookie's VALUE; a new name gets a map holding exactly that entry, stored under the NAME
+        ensures vs_exc == 0 && g_find_calls == 1 && g_find_src == cookie->name.src && g_find_size == cookie->name.size
+        ensures OLD(this->cookies.has_name) ==> (this->cookies.inserts == 0 && this->cookies.of_name.inserts == 1
+                 && this->cookies.of_name.last_key_src == cookie->value.src && this->cookies.of_name.last_key_size == cookie->value.size && this->cookies.of_name.last_val == (const void *)cookie)
+        ensures !OLD(this->cookies.has_name) ==> (this->cookies.inserts == 1 && this->cookies.last_key_src == cookie->name.src && this->cookies.last_key_size == cookie->name.size
+                 && this->cookies.last_val.inserts == 1 && this->cookies.last_val.last_key_src == cookie->value.src && this->cookies.last_val.last_key_size == cookie->value.size
+                 && this->cookies.last_val.last_val == (const void *)cookie)"""},
     {'q': 'Pistache::Http::Cookie::write', 'prologue': 'const struct vs_map *__vs_ext = &this->ext; const struct vs_pair_astr *E = this->ext.e;', 'contract': """
         requires FRESH(this, sizeof(*this)) && FRESH(os, sizeof(*os)) && this->ext.n <= MAP_MAX && FRESH(this->ext.e, this->ext.n * sizeof(struct vs_pair_astr))
         requires g_em_n == 0 && vs_exc == 0
@@ -155,6 +167,7 @@ static inline size_t vs_cookie_total(const struct Pistache_Http_Cookie *c) { siz
 static inline bool vs_cookie_sample_ok(const struct Pistache_Http_Cookie *c) { size_t t; return vs_cookie_spec(c, &t); }
 '''
 PROOFS = [
+    {'name': 'CookieJar_add', 'enforce': 'Pistache_Http_CookieJar_add', 'props': ['C17']},
     {'name': 'Cookie_write', 'enforce': 'Pistache_Http_Cookie_write', 'loops': 'contracts', 'props': ['C17'],
      'replay': {'driver': 'cookie_rt', 'argv': ['$*this.path.has', '$*this.domain.has', '$*this.maxAge.has', '$*this.maxAge.v', '$*this.expires.has',
                                                 '$*this.secure', '$*this.httpOnly', '$*this.ext.n']}},
